@@ -155,6 +155,9 @@ func (in *Interp) feasible(cond *smt.Term) bool {
 	if cond.IsFalse() {
 		return false
 	}
+	if cond.HasReal {
+		return true // nonlinear real arithmetic: not asked, both arms are kept (the guard still carries the condition)
+	}
 	in.Stats.FeasQueries++
 	in.checkDeadline()
 	t0 := time.Now()
